@@ -136,6 +136,7 @@ def sesspartOp (schemaP : SchemaSnapshot) (schemaT : TableSnapshot) (op : String
     | some values =>
       s!"ptokp {ks} {t} {key} {showCtok (clusterComputeTokenPreserialized schemaT (bytesOf ks) (bytesOf t) values)}"
     | none => "bad-op"
+  | "route" :: rest => " ".intercalate ("route" :: rest)   -- arrival of real EXECUTEs: oracle only, echoed
   | ["ctok", ks, t, types, key, _res] =>
     match cdcFlag types, parseVals key with
     | some typesOk, some values =>
@@ -150,8 +151,8 @@ def sesspart (impl : String) : String :=
     | [] => "bad-line"
     | head :: ops =>
       match words head with
-      | [schema, snap] =>
-        if !snap.startsWith "snap=" then "bad-line"
+      | schema :: snap :: extra =>
+        if !snap.startsWith "snap=" || extra.length > 1 then "bad-line"
         else
           let entries := String.ofList (snap.toList.drop 5)
           let parsed := if entries == "-" then some [] else (entries.splitOn ",").mapM parseSnapEntry
@@ -160,7 +161,9 @@ def sesspart (impl : String) : String :=
           | some es =>
             let schemaP : SchemaSnapshot := es.foldl (fun acc (ks, t, _, p) => insertTable ks t p acc) []
             let schemaT : TableSnapshot := es.foldl (fun acc (ks, t, n, p) => insertTable ks t ⟨n, p⟩ acc) []
-            " ; ".intercalate (s!"{schema} {snap}" :: ops.map (sesspartOp schemaP schemaT))
+            -- `views=…` (evidence only: `keyspace.views` is read by no token path, so it is no model input)
+            let headLine := " ".intercalate (schema :: snap :: extra)
+            " ; ".intercalate (headLine :: ops.map (sesspartOp schemaP schemaT))
       | _ => "bad-line"
 
 def run (case impl : String) : String :=
